@@ -21,4 +21,8 @@ def run_generic(pid, rep, spec, pf, verbose=False, only=None):
         return 2
     return finish(rep, obls, pf, TECH)
 
-EXTRA = {}
+def _patterns_C06(rep, spec, verbose=False, only=None):
+    from . import patterns
+    return patterns.run_patterns(rep, spec, tier=rep.tier, verbose=verbose, only=only)
+
+EXTRA = {'C06': _patterns_C06}
